@@ -6,6 +6,7 @@
 P=$1; K=$2; shift; shift
 OUT=/tmp/seedout-$P-$K
 git -C /repo status --short | grep -q . && { echo "/repo not clean"; exit 1; }
+rm -rf /verif/.build/evidence.bak; cp -a /verif/evidence /verif/.build/evidence.bak   # evidence of a run on a mutated tree must never be committed
 git -C /repo apply $OUT/patch.diff || exit 1
 for q in $P "$@"; do
   echo "== check $q with seeded change $P-$K (quick generators, no escalation)"
@@ -17,4 +18,5 @@ for q in $P "$@"; do
   fi
 done
 git -C /repo checkout -- .
+rm -rf /verif/evidence; mv /verif/.build/evidence.bak /verif/evidence
 git -C /repo status --short
